@@ -42,6 +42,8 @@ pub enum Item {
 pub struct Case {
     pub steps: Vec<Step>,
     pub tags: Vec<String>,
+    /// the main VM (the one that sees the failures) is driven in slices of this many instructions
+    pub main_slice: Option<usize>,
 }
 
 fn effects(rng: &mut Rng, gvars: &[String]) -> Vec<Cell> {
@@ -241,7 +243,12 @@ pub fn build_case(rng: &mut Rng, index: u64) -> Case {
     for p in probes {
         steps.push(Step { main: vec![Item::Form(p.clone())], twin: vec![Item::Form(p)], compare: true, label: "probe" });
     }
-    Case { steps, tags }
+    // one case in four drives the main VM the way a cooperative embedder does: prepare_eval + run_count(b)
+    let main_slice = if rng.chance(1, 4) { Some(*rng.pick(&[1usize, 2, 5, 17, 100, 1000])) } else { None };
+    if let Some(b) = main_slice {
+        tags.push(format!("main-vm-sliced:{}", if b <= 2 { "1-2" } else if b <= 17 { "5-17" } else { "100-1000" }));
+    }
+    Case { steps, tags, main_slice }
 }
 
 fn subst(form: &Cell, fail: &Cell) -> Cell {
@@ -266,10 +273,16 @@ struct Ran {
     text: String,
 }
 
-fn run_item(m: &mut MwVm, it: &Item) -> Ran {
+fn run_item(m: &mut MwVm, it: &Item, slice: Option<usize>) -> Ran {
     let sp_before = m.vm.verif_stats().sp;
     let (form, text) = match it {
-        Item::Form(f) => (run_form(m, f), format!("{:#}", f)),
+        Item::Form(f) => (
+            match slice {
+                Some(b) => crate::diff::run_form_sliced(m, f, b),
+                None => run_form(m, f),
+            },
+            format!("{:#}", f),
+        ),
         Item::Text(t) => {
             m.events.borrow_mut().clear();
             let r = catch(|| m.vm.eval_text(t).map(|x| x.0));
@@ -325,8 +338,8 @@ pub fn check_case(case: &Case, rep: &mut Report, id: (u64, u64), verbose: bool) 
     let shape_tag = case.tags.iter().find(|t| t.starts_with("shape:")).cloned().unwrap_or_default();
     let mut failures_seen = 0;
     for (si, s) in case.steps.iter().enumerate() {
-        let rm: Vec<Ran> = s.main.iter().map(|it| run_item(&mut main, it)).collect();
-        let rt: Vec<Ran> = s.twin.iter().map(|it| run_item(&mut twin, it)).collect();
+        let rm: Vec<Ran> = s.main.iter().map(|it| run_item(&mut main, it, case.main_slice)).collect();
+        let rt: Vec<Ran> = s.twin.iter().map(|it| run_item(&mut twin, it, None)).collect();
         for r in rm.iter().chain(rt.iter()) {
             if let MwOutcome::Panic(p) = &r.form.outcome {
                 rep.violation(&format!("panic:{}", p.file()), format!("{} panicked: {} at {}", r.text, p.message, p.location), witness(case), id);
